@@ -358,7 +358,9 @@ class Shared(object):
     if op[0] == 'Create':
       key = self.KEYS[op[1]]
       alive = [s for (k, s) in self.refs if k == key and s is not None and key is not None]
-      sink = self.prov.CreateSink({SinkProperties.Endpoint: stubs.make_endpoint(0), 'sharekey': key})
+      # the client label differs between holders (two clients of one process sharing a connection by key); it is not part of the key
+      sink = self.prov.CreateSink({SinkProperties.Endpoint: stubs.make_endpoint(0), 'sharekey': key,
+                                   SinkProperties.Label: 'client-%d' % (len(self.refs) % 2)})
       if alive and sink is not alive[0]:
         self.v('C16.shared-key', 'after %r: key %r yielded a different sink although a holder of the first one is alive' % (op, key))
       if key is None:
